@@ -75,12 +75,55 @@ type c09WaitRec struct {
 	cases          []string
 }
 
+// c09Files: every function of these files is scanned.  A blocking construct in a function that is not an anchor is
+// emitted as well (with its function name), so that the Lean side has to classify it: a refactoring that moves a wait
+// into a new helper cannot drop it from the list.
 func c09CollectWaits(repo string) []c09WaitRec {
 	var out []c09WaitRec
+	anchored := map[string]bool{}
+	var files []string
+	seenFile := map[string]bool{}
 	for _, a := range c09Anchors {
-		fset, f := parseFile(repo, a.file)
-		fd := funcDecl(f, a.recv, a.fn)
-		params := map[string]bool{}
+		anchored[a.file+"|"+a.recv+"."+a.fn] = true
+		if !seenFile[a.file] {
+			seenFile[a.file] = true
+			files = append(files, a.file)
+		}
+	}
+	found := map[string]bool{}
+	for _, file := range files {
+		fset, f := parseFile(repo, file)
+		for _, d := range f.Decls {
+			fd, ok := d.(*ast.FuncDecl)
+			if !ok || fd.Body == nil {
+				continue
+			}
+			recv := ""
+			if fd.Recv != nil && len(fd.Recv.List) > 0 {
+				recv = recvTypeName(fd.Recv.List[0].Type)
+			}
+			name := fd.Name.Name
+			if recv != "" {
+				name = recv + "." + name
+			}
+			key := file + "|" + name
+			found[key] = true
+			out = append(out, c09WaitsOf(fset, file, name, fd)...)
+		}
+	}
+	for k := range anchored {
+		if !found[k] {
+			fail("C09 anchor %s no longer exists", k)
+		}
+	}
+	return out
+}
+
+func c09WaitsOf(fset *token.FileSet, file, name string, fd *ast.FuncDecl) []c09WaitRec {
+	var out []c09WaitRec
+	a := struct{ file, fn string }{file, name}
+	params := map[string]bool{}
+	{
 		ast.Inspect(fd.Body, func(n ast.Node) bool {
 			switch s := n.(type) {
 			case *ast.SelectStmt:
@@ -107,7 +150,7 @@ func c09CollectWaits(repo string) []c09WaitRec {
 					cs = append(cs, cl)
 				}
 				sort.Strings(cs)
-				out = append(out, c09WaitRec{a.file, a.recv + "." + a.fn, "select", cs})
+				out = append(out, c09WaitRec{a.file, a.fn, "select", cs})
 			case *ast.CallExpr:
 				if sel, ok := s.Fun.(*ast.SelectorExpr); ok && sel.Sel.Name == "Acquire" && len(s.Args) == 2 {
 					cl := c09ClassifyWake("<-"+c09ExprText(fset, s.Args[0])+".Done()", params)
@@ -115,7 +158,7 @@ func c09CollectWaits(repo string) []c09WaitRec {
 						// Acquire(ctx, n) with the function's own ctx parameter
 						cl = "reqctx"
 					}
-					out = append(out, c09WaitRec{a.file, a.recv + "." + a.fn, "acquire", []string{cl, "slot"}})
+					out = append(out, c09WaitRec{a.file, a.fn, "acquire", []string{cl, "slot"}})
 				}
 			}
 			return true
